@@ -14,9 +14,10 @@ import (
 
 // An operation against the server.  Handles are symbolic so that a sequence
 // stays meaningful when operations are removed while shrinking:
-//   "root"      the root handle
-//   "@<id>"     the handle returned by operation <id> (0 bytes if none)
-//   "x<hex>"    literal bytes
+//
+//	"root"      the root handle
+//	"@<id>"     the handle returned by operation <id> (0 bytes if none)
+//	"x<hex>"    literal bytes
 type Op struct {
 	Id       int
 	Proc     string
@@ -228,9 +229,9 @@ func ParseOp(line string) (Op, error) {
 // ---------------------------------------------------------------------------
 
 type OAttr struct {
-	Ftype, Nlink           uint32
-	Size, Fileid           uint64
-	As, An, Ms, Mn         uint32
+	Ftype, Nlink   uint32
+	Size, Fileid   uint64
+	As, An, Ms, Mn uint32
 }
 
 func mkOAttr(a nfstypes.Fattr3) OAttr {
